@@ -2851,7 +2851,10 @@ template <typename T>
       static_assert(H > 0 || !Parent::sequence_set,
                     "IN_SEQUENCE and TIMES(0) does not make sense");
 
-      m.matcher->sequences->set_limits(L, H);
+      {
+        auto lock = get_lock();
+        m.matcher->sequences->set_limits(L, H);
+      }
       return {std::move(m).matcher};
     }
   };
@@ -2874,7 +2877,10 @@ template <typename T>
          throw std::logic_error{"In RT_TIMES the first value must not exceed the second"};
       }
 
-      m.matcher->sequences->set_limits(bounds.low, bounds.high);
+      {
+        auto lock = get_lock();
+        m.matcher->sequences->set_limits(bounds.low, bounds.high);
+      }
       return std::move(m).matcher;
     }
   };
